@@ -5,7 +5,7 @@ From Coq Require Import ZArith List Bool Reals QArith Lia Lra.
 From Coquelicot Require Import Coquelicot.
 From CV Require Import Base.Num Base.RNum C06.RestraintModel C06.RestraintSched C06.RestraintTI C06.RestraintWork
   C06.RestraintHist C06.RestraintProofs C18.ValueModel C18.ValueProofs C18.ExtraProofs C06.RestraintManifold
-  C06.RestraintGen C06.RestraintGenProofs C06.TIEstimator.
+  C06.RestraintGen C06.RestraintGenProofs C06.TIEstimator C06.RestraintTSF.
 Import ListNotations.
 
 (* ---- closed-form potentials (R instance of the model) ------------------------------------------ *)
@@ -278,6 +278,18 @@ Theorem C06_ti_line_once_per_stage : forall T (O : NumOps T) (c : rcfg) (evs : l
   is_new (run O c evs) e = true /\ ((m_it (run O c evs) + 1 - c_it0 c) mod c_nsteps c = 0)%Z.
 Proof. intros T O c evs e H1 H2 H3 H4 H5 H6. exact (ti_line_only_at_stage_end O c H1 H2 H3 H4 H5 evs e H6). Qed.
 Print Assumptions C06_ti_line_once_per_stage.
+
+(* ---- timeStepFactor f (the bias is updated only at steps that are multiples of f; run protocol run_tsf) ----------------
+   Continuously moving centres are, after ANY history, the scheduled centres of the last updated step that is not beyond
+   the end of the schedule, last_update = f * (min(t, t0 + N) / f) (the configured centres before the first update).
+   In particular they stop short of the target when targetNumSteps is not a multiple of f (recorded finding). *)
+Theorem C06_center_schedule_timestepfactor : forall T (O : NumOps T) (f : Z) (c : rcfg) (evs : list event),
+  (0 < f)%Z -> c_chg_centers c = true -> c_nstages c = 0%Z -> (0 <= c_nsteps c)%Z -> (0 <= c_it0 c)%Z -> evs <> [] ->
+  let m := run_tsf O f c evs in
+  ((c_it0 c <= last_update f c (m_it m))%Z -> s_centers (m_st m) = closed_centers O c (last_update f c (m_it m))) /\
+  ((last_update f c (m_it m) < c_it0 c)%Z -> s_centers (m_st m) = c_centers0 c).
+Proof. exact @center_schedule_tsf. Qed.
+Print Assumptions C06_center_schedule_timestepfactor.
 
 (* ---- the TI estimator attached to a bias (colvarbias_ti, writeTISamples / writeTIPMF), every carrier, every segmentation ----
    After ANY history the count and sum grids hold exactly the samples of the specification ti_samples: every NEW step (an
